@@ -11,6 +11,7 @@ let dispatch kind tk : string =
 
 let () =
   let path = Sys.argv.(1) in
+  (if Array.length Sys.argv > 2 then Util.codec_path := Sys.argv.(2));
   let ic = open_in path in
   let out = Buffer.create 65536 in
   (try
